@@ -259,6 +259,25 @@ def story_case(r, ending=None, npieces=None, reject=None, nhash=1, heights=True,
     return {"cfg": cfg, "invoices": b.invoices, "preimages": b.preimages, "_script": script, "family": "%s/%s/%s%s%s%s" % ("burst" if burst else "story", ending, reject and reject[0], "/second" if second else "", "/amountless" if amountless else "", "/hangup" if hangup is not None else ""),
             "suffix": [{"e": "finale"}], "_b": b, "_probe": b.htlc(inv, total, total, expiry=5000, rel=pol[2] + 100, amount_tlv=atlv)}
 
+def one_failed_other_pending_case(r, code):
+    """Two parts in flight; the first fails with [code] and the plugin gets to see that answer while the second is still pending;
+    then the sender retries with a second funded set; only afterwards the second part resolves. Whoever gives up at the first
+    failure frees the record and pays again while a part is pending."""
+    cfg = mk_cfg(r)
+    b = CaseBuilder(r, cfg, 1)
+    pol = cfg["policy"]
+    amount = r.choice([1000000, 21000])
+    inv = b.add_invoice(0, amount)
+    need = fee_needed(pol, amount)
+    script = [{"e": "height", "v": 100}, b.htlc(inv, need, need, expiry=2400, rel=pol[2] + 50), {"e": "drain"},
+              {"e": "proc_next"}, {"e": "newpart_next"}, {"e": "newpart_next"}, {"e": "payfin_next", "out": r.choice(["pending", "failed_warn", "error"])}, {"e": "drain"},
+              {"e": "part_next", "st": "fail", "code": code, "nth": 0}, {"e": "drain"},
+              b.htlc(inv, need, need, expiry=2300, rel=pol[2] + 60), {"e": "drain"}]
+    script += pay_ending(r, r.choice(["complete", "failed_noparts", "pending_then_done"])) + [{"e": "drain"}]
+    script += [{"e": "part_next", "st": r.choice(["done", "fail"]), "code": r.choice(FAIL_CODES)}, {"e": "drain"}]
+    return {"cfg": cfg, "invoices": b.invoices, "preimages": b.preimages, "_script": script, "family": "one_failed_other_pending/%d" % code,
+            "suffix": [{"e": "finale"}], "_b": b, "_probe": b.htlc(inv, need, need, expiry=5000, rel=pol[2] + 100)}
+
 def straggler_case(r, ending=None):
     """The first lifecycle's bookkeeping RPCs are withheld at some point after its pay ended while a second,
     fully funded set runs its own payment; then the stragglers are released."""
